@@ -20,6 +20,7 @@ import (
 	"net/url"
 	"os"
 	"os/exec"
+	"os/signal"
 	"path/filepath"
 	"sort"
 	"strconv"
@@ -66,6 +67,9 @@ type vf27Run struct {
 	Ends map[int]int64 `json:"-"` // optional: instant at which each track's last sample ends
 
 	Layout string `json:"-"` // optional: file-name part of the record path (default vf27LayoutChrono)
+
+	OnError func(msg string) `json:"-"` // optional: see vf27Logger.onErr
+	Errors  *[]string        `json:"-"` // optional: receives the Error-level log lines of the run
 }
 
 // file-name layouts of the record path (after "%path/")
@@ -102,17 +106,29 @@ func vf27AudioFormat() *rtspformat.MPEG4Audio {
 type vf27Logger struct {
 	mu    sync.Mutex
 	lines []string
+	errs  []string
 	drift chan struct{}
 	once  sync.Once
+	onErr func(msg string) // called, in the recorder instance's goroutine, on its first error, BEFORE it closes its segment
 }
 
-func (l *vf27Logger) Log(_ logger.Level, format string, args ...any) {
+// The recorder instance logs the error that ends it (the end-of-run "detected drift" or a write
+// error) at Error level right before it removes its reader and closes the format.
+func (l *vf27Logger) Log(level logger.Level, format string, args ...any) {
 	s := fmt.Sprintf(format, args...)
 	l.mu.Lock()
 	l.lines = append(l.lines, s)
+	if level == logger.Error {
+		l.errs = append(l.errs, s)
+	}
 	l.mu.Unlock()
-	if strings.Contains(s, "detected drift") {
-		l.once.Do(func() { close(l.drift) })
+	if level == logger.Error || strings.Contains(s, "detected drift") {
+		l.once.Do(func() {
+			if l.onErr != nil {
+				l.onErr(s)
+			}
+			close(l.drift)
+		})
 	}
 }
 
@@ -171,7 +187,7 @@ func vf27RecordEx(t testing.TB, dir string, pathName string, run vf27Run) ([]str
 		t.Fatalf("substream: %v", err)
 	}
 
-	lg := &vf27Logger{drift: make(chan struct{})}
+	lg := &vf27Logger{drift: make(chan struct{}), onErr: run.OnError}
 	var mu sync.Mutex
 	var created []string
 	completed := map[string]int64{}
@@ -251,6 +267,11 @@ func vf27RecordEx(t testing.TB, dir string, pathName string, run vf27Run) ([]str
 		t.Fatalf("recorder did not consume the run within 20 s; log: %v", lg.lines)
 	}
 	rec.Close()
+	if run.Errors != nil {
+		lg.mu.Lock()
+		*run.Errors = append([]string{}, lg.errs...)
+		lg.mu.Unlock()
+	}
 	mu.Lock()
 	defer mu.Unlock()
 	return append([]string{}, created...), completed
@@ -1338,4 +1359,340 @@ func vf27FlatIDs(sg *vf27Seg) [][2]int {
 		out = append(out, vf27IDs(p)...)
 	}
 	return out
+}
+
+// ---------------------------------------------------------------------------- C27: write faults
+
+// vf27FaultSpec is what the fault child does: record the standard stream with the size of every file
+// limited to Limit bytes (RLIMIT_FSIZE, SIGXFSZ ignored: the write that crosses the limit is short
+// and then fails with EFBIG), and when the recorder reports the error: exit at once ("exit"), lift
+// the limit before the recorder closes the segment ("close_lifted") or leave it ("close_limited");
+// then go on recording a second run, as the supervisor does with a new instance.
+type vf27FaultSpec struct {
+	Dir   string `json:"dir"`
+	Kind  string `json:"kind"`
+	Limit int64  `json:"limit"`
+	After string `json:"after"`
+}
+
+type vf27FaultResult struct {
+	Files1    []string         `json:"files1"`
+	Files2    []string         `json:"files2"`
+	Reported  map[string]int64 `json:"reported"`
+	Errors1   []string         `json:"errors1"`
+	Errors2   []string         `json:"errors2"`
+	ExitedAt  string           `json:"exitedAt"`
+	SecondRun bool             `json:"secondRun"`
+}
+
+func vf27SecondRun(kind string) (vf27Run, map[int]vf27Unit) {
+	run, _ := vf27StdRun(kind, 10000)
+	byID := map[int]vf27Unit{}
+	for i := range run.Units {
+		run.Units[i].T += 5000
+		run.Units[i].NTP += 5000
+		run.Units[i].ID += 1000
+		byID[run.Units[i].ID] = run.Units[i]
+	}
+	return run, byID
+}
+
+func TestVerif_C27_FaultChild(t *testing.T) {
+	raw := os.Getenv("VERIF_C27_FAULT")
+	if raw == "" {
+		t.Skip("child mode only")
+	}
+	var sp vf27FaultSpec
+	if err := json.Unmarshal([]byte(raw), &sp); err != nil {
+		t.Fatal(err)
+	}
+	emit := func(r vf27FaultResult) {
+		b, _ := json.Marshal(r)
+		fmt.Printf("\nVFFAULT %s\n", b)
+	}
+	signal.Ignore(syscall.SIGXFSZ)
+	var orig syscall.Rlimit
+	if err := syscall.Getrlimit(syscall.RLIMIT_FSIZE, &orig); err != nil {
+		t.Fatal(err)
+	}
+	if err := syscall.Setrlimit(syscall.RLIMIT_FSIZE, &syscall.Rlimit{Cur: uint64(sp.Limit), Max: orig.Max}); err != nil {
+		t.Fatal(err)
+	}
+	res := vf27FaultResult{Reported: map[string]int64{}, Errors1: []string{}, Errors2: []string{}, Files1: []string{}, Files2: []string{}}
+	run1, _ := vf27StdRun(sp.Kind, 10000)
+	run1.Errors = &res.Errors1
+	run1.OnError = func(msg string) {
+		switch sp.After {
+		case "exit":
+			res.ExitedAt = msg
+			emit(res)
+			os.Exit(0)
+		case "close_lifted":
+			syscall.Setrlimit(syscall.RLIMIT_FSIZE, &orig) //nolint:errcheck
+		}
+	}
+	var rep map[string]int64
+	res.Files1, rep = vf27RecordEx(t, sp.Dir, "cam", run1)
+	for k, v := range rep {
+		res.Reported[k] = v
+	}
+	run2, _ := vf27SecondRun(sp.Kind)
+	run2.Errors = &res.Errors2
+	res.Files2, rep = vf27RecordEx(t, sp.Dir, "cam", run2)
+	for k, v := range rep {
+		res.Reported[k] = v
+	}
+	res.SecondRun = true
+	emit(res)
+}
+
+// vf27Tail describes what follows the last complete moof+mdat pair of a file.
+type vf27Tail struct {
+	Len      int    `json:"len"`
+	Type     string `json:"type"`     // box type at the start of the tail ("" if fewer than 8 bytes)
+	Size     int    `json:"size"`     // its declared size
+	NextType string `json:"nextType"` // box type where the tail's first box says it ends ("" if not on disk)
+	NextSize int    `json:"nextSize"`
+}
+
+// vf27ScanParts: ftyp, moov, then complete moof+mdat pairs; the rest is the tail.
+func vf27ScanParts(b []byte) (types []string, pairs [][2]int, tail vf27Tail) {
+	types = []string{}
+	off := 0
+	box := func(o int) (string, int, bool) {
+		if o+8 > len(b) {
+			return "", 0, false
+		}
+		return string(b[o+4 : o+8]), int(binary.BigEndian.Uint32(b[o:])), true
+	}
+	for _, want := range []string{"ftyp", "moov"} {
+		ty, sz, ok := box(off)
+		if !ok || ty != want || sz < 8 || off+sz > len(b) {
+			tail = vf27Tail{Len: len(b) - off}
+			return
+		}
+		types = append(types, ty)
+		off += sz
+	}
+	for {
+		ty, sz, ok := box(off)
+		if !ok || ty != "moof" || sz < 8 || off+sz > len(b) {
+			break
+		}
+		ty2, sz2, ok2 := box(off + sz)
+		if !ok2 || ty2 != "mdat" || sz2 < 8 || off+sz+sz2 > len(b) {
+			break
+		}
+		types = append(types, "moof", "mdat")
+		pairs = append(pairs, [2]int{off, off + sz + sz2})
+		off += sz + sz2
+	}
+	tail = vf27Tail{Len: len(b) - off}
+	if ty, sz, ok := box(off); ok {
+		tail.Type, tail.Size = strings.ToValidUTF8(ty, "?"), sz
+		if sz >= 8 {
+			if ty2, sz2, ok2 := box(off + sz); ok2 {
+				tail.NextType, tail.NextSize = strings.ToValidUTF8(ty2, "?"), sz2
+			}
+		}
+	}
+	return
+}
+
+type vf27FaultCase struct {
+	ID    int    `json:"id"`
+	K     int    `json:"k"`
+	Z     int    `json:"z"`
+	Torn  bool   `json:"torn"`
+	After string `json:"after"`
+}
+
+// TestVerif_C27_Fault: for the write faults generated by TLC, what the real recorder leaves on disk
+// and what the real playback server makes of it. Nothing is asserted here.
+func TestVerif_C27_Fault(t *testing.T) {
+	out := verifrt.NewOut(t)
+	defer out.Close()
+	var cases []vf27FaultCase
+	verifrt.ForEachCase(t, func(raw []byte) {
+		var c vf27FaultCase
+		verifrt.Decode(t, raw, &c)
+		cases = append(cases, c)
+	})
+	server := &vf27Child{t: t}
+	defer server.stop()
+	kinds := []string{"va"}
+	if verifrt.Param("BOTH", 0) == 1 {
+		kinds = append(kinds, "a")
+	}
+	for _, kind := range kinds {
+		// the fault-free recording gives the offsets of the parts of the first segment
+		run1, byID1 := vf27StdRun(kind, 10000)
+		run2, byID2 := vf27SecondRun(kind)
+		ends1, ends2 := vf27Ends(run1), vf27Ends(run2)
+		ref := vf27LoadSeg(t, vf27Record(t, t.TempDir(), "cam", run1)[0])
+		if ref.LayoutErr != "" {
+			t.Fatalf("reference recording: %s", ref.LayoutErr)
+		}
+		fed := map[int]vf27Unit{}
+		for k, v := range byID1 {
+			fed[k] = v
+		}
+		for k, v := range byID2 {
+			fed[k] = v
+		}
+		for _, c := range cases {
+			if c.K >= len(ref.Units)-1 {
+				continue // the reference segment has fewer parts
+			}
+			zs := ref.Zones[c.K]
+			lo := zs[c.Z-1]
+			hi := ref.Units[c.K+1]
+			if c.Z < 4 {
+				hi = zs[c.Z]
+			}
+			off := lo
+			if c.Torn {
+				off = (lo + hi) / 2
+				if off == lo {
+					off = lo + 1
+				}
+			}
+			dir := t.TempDir()
+			spb, _ := json.Marshal(vf27FaultSpec{Dir: dir, Kind: kind, Limit: int64(off), After: c.After})
+			cmd := exec.Command(os.Args[0], "-test.run", "^TestVerif_C27_FaultChild$", "-test.timeout", "120s")
+			cmd.Env = append(os.Environ(), "VERIF_C27_FAULT="+string(spb))
+			ob, err := cmd.CombinedOutput()
+			var res vf27FaultResult
+			found := false
+			for _, line := range bytes.Split(ob, []byte("\n")) {
+				if bytes.HasPrefix(line, []byte("VFFAULT ")) {
+					if err2 := json.Unmarshal(line[8:], &res); err2 != nil {
+						t.Fatalf("fault child: bad result: %v", err2)
+					}
+					found = true
+				}
+			}
+			if !found {
+				t.Fatalf("fault child gave no result (%v): %s", err, ob)
+			}
+			files, _ := filepath.Glob(filepath.Join(dir, "cam", "*.mp4"))
+			sort.Strings(files)
+			type group struct {
+				Exp     [][2]int `json:"exp"`
+				Got     [][2]int `json:"got"`
+				Status  int      `json:"status"`
+				Err     string   `json:"err"`
+				TornEnd bool     `json:"tornTail"`
+				FromMs  int64    `json:"fromMs"`
+			}
+			groups := map[bool]*group{}
+			var fileRecs []map[string]any
+			for fi, f := range files {
+				b, _ := os.ReadFile(f)
+				types, pairs, tail := vf27ScanParts(b)
+				second := false
+				for _, f2 := range res.Files2 {
+					if f2 == f {
+						second = true
+					}
+				}
+				var pa recordstore.Path
+				if !pa.Decode(filepath.Join(dir, "%path/"+vf27LayoutChrono+".mp4"), f) {
+					t.Fatalf("cannot decode %s", f)
+				}
+				startMs := pa.Start.Sub(vf27Base).Milliseconds()
+				g := groups[second]
+				if g == nil {
+					g = &group{Exp: [][2]int{}, Got: [][2]int{}, FromMs: startMs}
+					groups[second] = g
+				}
+				if tail.Len > 0 {
+					g.TornEnd = true
+				}
+				hdrDur, sync1, ids := int64(-1), true, [][2]int{}
+				unknown := 0
+				spans := [][2]int64{} // [start, end) of every fed sample the file holds
+				if len(types) >= 2 {
+					if mo, _, ok := vf27FindChild(b, 40, 32+int(binary.BigEndian.Uint32(b[32:])), "mvhd"); ok {
+						hdrDur = int64(binary.BigEndian.Uint32(b[mo+24:]))
+					}
+					if len(pairs) > 0 {
+						ss, _, ok := vf27ParseFMP4(b[:pairs[len(pairs)-1][1]])
+						if !ok {
+							t.Fatalf("cannot parse the complete parts of %s", f)
+						}
+						firstVideo := true
+						for _, sm := range ss {
+							u, known := fed[sm.ID]
+							if !known {
+								unknown++
+								continue
+							}
+							ids = append(ids, [2]int{sm.Track, sm.ID})
+							src, srcEnds := run1, ends1
+							if sm.ID > 1000 {
+								src, srcEnds = run2, ends2
+							}
+							end := srcEnds[u.Track]
+							for _, v := range src.Units {
+								if v.Track == u.Track && v.T > u.T {
+									end = v.T
+									break
+								}
+							}
+							spans = append(spans, [2]int64{u.T, end})
+							if vf27TrackIsVideo(run1, sm.Track) && firstVideo {
+								firstVideo = false
+								sync1 = sm.Sync && u.Sync
+							}
+						}
+					}
+				}
+				g.Exp = append(g.Exp, ids...)
+				cb, rep := res.Reported[f]
+				fileRecs = append(fileRecs, map[string]any{"kind": "faultfile", "stream": kind, "id": c.ID, "file": fi + 1,
+					"secondRun": second, "boxes": types, "parts": len(pairs), "tail": tail, "len": len(b), "hdrDurMs": hdrDur,
+					"reported": rep, "cbDurUs": cb, "firstVideoSync": sync1, "unknown": unknown, "cls": c, "limit": off,
+					"spans": spans,
+					// closed without any fault: a file of the second run after the limit was lifted
+					"normal": second && c.After == "close_lifted" && tail.Len == 0})
+			}
+			for _, r := range fileRecs {
+				out.Emit(r)
+			}
+			// playback: each run is asked from the start of its first file (a window that starts in the gap
+			// after a run or spans two runs is the business of C29)
+			gs := []*group{}
+			for _, second := range []bool{false, true} {
+				g := groups[second]
+				if g == nil {
+					continue
+				}
+				q := url.Values{}
+				q.Set("path", "cam")
+				q.Set("start", vf27Base.Add(time.Duration(g.FromMs)*time.Millisecond).Format(time.RFC3339Nano))
+				q.Set("duration", "3")
+				rs, alive, crash := server.do(vf27Req{Dir: dir, URLs: []string{"/get?" + q.Encode()}})
+				if !alive {
+					g.Status, g.Err = -1, crash
+				} else {
+					h := rs.HTTP[0]
+					if h.Err != "" {
+						t.Fatalf("no response (not a verdict): %s", h.Err)
+					}
+					g.Status = h.Status
+					if h.Status == http.StatusOK {
+						if ss, _, ok := vf27ParseFMP4(h.Body); ok {
+							g.Got = vf27IDs(ss)
+						}
+					} else {
+						g.Err = vf27ErrOf(h.Body)
+					}
+				}
+				gs = append(gs, g)
+			}
+			out.Emit(map[string]any{"kind": "faultdir", "stream": kind, "id": c.ID, "cls": c, "limit": off, "files": len(files),
+				"groups": gs, "errors1": append([]string{}, res.Errors1...), "errors2": append([]string{}, res.Errors2...), "exited": res.ExitedAt != "", "secondRun": res.SecondRun})
+		}
+	}
 }
